@@ -203,6 +203,8 @@ class Hist(object):
                 else: at = self.of_type((AT,), idx)
                 if at is None: return None
                 if at.doc is not e.doc: L.add('cross-document')
+                # known finding (same family as the clone case): a default attribute stays "unspecified" when it is detached
+                if op in ('san', 'sanns'): self.excl_check('C13-clone-attr-specified', at.owner is None and not at.specified)
                 if op == 'san':
                     self.excl_check('C13-setAttributeNode-self', at.owner is e and not e.readonly)
                     return 'san\t%s\t%s' % (I(e), I(at)), w.setAttributeNode(e, at)
@@ -220,7 +222,7 @@ class Hist(object):
             if op == 'ganns': return 'ganns\t%s\t%s\t%s' % (I(e), esc(ns), esc(ln)), w.getAttributeNodeNS(e, ns, ln)
             if op == 'hatns': return 'hatns\t%s\t%s\t%s' % (I(e), esc(ns), esc(ln)), w.hasAttributeNS(e, ns, ln)
         if op in ('apd', 'insd', 'deld', 'repd', 'subd'):
-            n = self.of_type((TX, CD, CM), a)
+            n = self.pick_text(a, (TX, CD, CM)) or self.of_type((TX, CD, CM), a)
             if n is None: return None
             ln = len(n.value)
             def off(v): return v % (ln + 3)
@@ -247,7 +249,7 @@ class Hist(object):
             if n.t == AT and not n.readonly: self.removal_hook('attrval', n, None, None)
             return 'setv\t%s\t%s' % (I(n), esc(s)), w.setNodeValue(n, s)
         if op == 'split':
-            n = self.of_type((TX, CD), a)
+            n = self.pick_text(a, (TX, CD)) or self.of_type((TX, CD), a)
             if n is None: return None
             o = b % (len(n.value) + 2)
             self.split_pre(n, o)
@@ -265,7 +267,7 @@ class Hist(object):
             if n is None: return None
             deep = b % 2
             # known finding: a directly cloned default attribute stays unspecified
-            self.excl_check('C13-clone-attr-specified', n.t == AT and n.owner is not None and not n.specified)
+            self.excl_check('C13-clone-attr-specified', n.t == AT and not n.specified)
             r = w.cloneNode(n, bool(deep))
             # known finding: the clone of a first child carries the internal "first child" flag
             if 'C13-clone-firstchild-flag' in self.excl and ((n.parent is not None and n.parent.children[0] is n) or n in self.tainted) and r is not None and not r.is_err():
@@ -284,25 +286,8 @@ class Hist(object):
         return None
     def removal_hook(self, kind, p, c, ref): pass
     def pick_rem(self, a, b, c): return None
+    def pick_text(self, a, types): return None
     def text_hook(self, op, n, off, cnt): pass
-    def pick_rem(self, a, b, c):
-        """every third removeChild aims at the reference node of a live iterator or at a range container (or an ancestor of it)"""
-        if a % 3 != 2: return None
-        cands = [v.ref for v in self.views('I') if not v.detached] + [r.sc for r in self.views('R') if not r.detached] + [r.ec for r in self.views('R') if not r.detached]
-        n = self.pick(cands, b)
-        for _ in range(c % 3):
-            if n is not None and n.parent is not None and n.parent.parent is not None: n = n.parent
-        if n is None or n.parent is None: return None
-        return n.parent, n
-    def split_pre(self, n, off):
-        if n.readonly or off > len(n.value): return
-        for r in self.views('R'):
-            if r.detached: continue
-            inside = (r.sc is n and r.so > off) or (r.ec is n and r.eo > off)
-            # known finding: the new node of a parentless Text becomes a range container although it is in no tree with the other boundary
-            self.excl_check('C14-range-splitText-detached', n.parent is None and inside)
-            # known finding: the start moves into the new node but an end directly behind the split node stays in front of it
-            self.excl_check('C14-range-splitText-start-after-end', n.parent is not None and r.sc is n and r.so > off and r.ec is n.parent and r.eo == dm.index_of(n) + 1)
     def split_hook(self, n, off, res): return res
     def split_pre(self, n, off): pass
     def norm_hook(self, n, res): return res
@@ -312,7 +297,7 @@ class Hist(object):
         if nc not in self.tainted: return
         codes = self.w._insert_codes(p, nc, ref if replacing is None else None, replacing=replacing)
         if replacing is not None and replacing.parent is not p: codes.add(dm.NOT_FOUND)
-        if codes: return
+        if codes and not (codes == {dm.HIERARCHY} and self.w._ws_text_under_document(p, nc)): return
         first = (not p.children) if ref is None else (p.children[0] is ref)
         if first: self.tainted.discard(nc); return
         raise Excluded('C13-clone-firstchild-flag')
@@ -578,6 +563,11 @@ class ViewHist(Hist):
             if n is not None and n.parent is not None and n.parent.parent is not None: n = n.parent
         if n is None or n.parent is None: return None
         return n.parent, n
+    def pick_text(self, a, types):
+        """every third character-data edit aims at a Text/Comment that holds a boundary point of a live range"""
+        if a % 3 != 2: return None
+        cands = [x for r in self.views('R') if not r.detached for x in (r.sc, r.ec) if x.t in types and not x.dead]
+        return self.pick(cands, a // 3)
     def split_pre(self, n, off):
         if n.readonly or off > len(n.value): return
         for r in self.views('R'):
